@@ -287,3 +287,64 @@ func errKind(err error) string {
 	}
 	return "BADFRAME(" + err.Error() + ")"
 }
+
+// scanall <conn> <name> <args with the cursor written as "CUR">: follow the cursor from 0 until 0 comes
+// back (or 5000 calls) and report how many calls it took and what was returned in total
+func (st *state) scanAll(toks []string) (string, string) {
+	cl := st.clients[toks[1]]
+	if cl == nil {
+		return "bad-op", ""
+	}
+	now := time.Now().UnixMilli()
+	cursor := "0"
+	calls := 0
+	var elems []string
+	for {
+		calls++
+		var args [][]byte
+		for _, t := range toks[2:] {
+			if t == "CUR" {
+				args = append(args, []byte(cursor))
+				continue
+			}
+			b, err := parseArg(t)
+			if err != nil {
+				return "bad-op", ""
+			}
+			args = append(args, b)
+		}
+		cl.c.SetDeadline(time.Now().Add(5 * time.Second))
+		if _, err := cl.c.Write(encodeCommand(args)); err != nil {
+			return "CLOSED", fmt.Sprintf(" now=%d", now)
+		}
+		var got []tok
+		for {
+			t, err := readTok(cl.r)
+			if err != nil {
+				return fmt.Sprintf("calls=%d !%s", calls, errKind(err)), fmt.Sprintf(" now=%d", now)
+			}
+			got = append(got, t)
+			if treeSize(got, 0) == len(got) {
+				break
+			}
+		}
+		if len(got) < 3 || got[0].kind != '*' || got[0].n != 2 || got[1].kind != '$' || got[2].kind != '*' {
+			strs := make([]string, len(got))
+			for i, t := range got {
+				strs[i] = t.String()
+			}
+			return fmt.Sprintf("calls=%d !SHAPE %s", calls, strings.Join(strs, " ")), fmt.Sprintf(" now=%d", now)
+		}
+		for _, t := range got[3:] {
+			if t.kind == '$' {
+				elems = append(elems, toHex([]byte(t.text)))
+			}
+		}
+		cursor = got[1].text
+		if cursor == "0" || calls >= 5000 {
+			break
+		}
+	}
+	sort.Strings(elems)
+	return fmt.Sprintf("calls=%d n=%d last=%s elems=%s", calls, len(elems), cursor, compact(strings.Join(elems, ","))), fmt.Sprintf(" now=%d", now)
+}
